@@ -272,6 +272,9 @@ pub struct Cfg {
     /// after the program the application keeps polling (benign environment) until the handle is dead;
     /// for keep-alive families with a broker that never answers PINGREQ
     pub drain_until_dead: bool,
+    /// `Disconnect` may also be called with a property that is not legal on a DISCONNECT (refused on a
+    /// live handle, `Ok` on a dead one)
+    pub disc_illegal: bool,
 }
 
 #[derive(Copy, Clone, Debug, PartialEq, Eq)]
@@ -324,6 +327,7 @@ impl Cfg {
             must_reach: Vec::new(),
             age_aliases: Vec::new(),
             drain_until_dead: false,
+            disc_illegal: false,
         }
     }
     pub fn has(&self, p: &str) -> bool {
